@@ -212,9 +212,23 @@ pub open spec fn has_chunk4(b: Seq<u8>, pat: Seq<u8>) -> bool {
 }
 /// `b.chunks(4).any(|c| c == pat)` for a 4-byte pattern (a short last chunk never equals it)
 #[verifier::external_body]
-pub fn vx_chunks4_any_eq(b: &Vec<u8>, pat: &[u8; 4]) -> (r: bool)
+pub fn vx_chunks_4_any_eq(b: &Vec<u8>, pat: &[u8; 4]) -> (r: bool)
     ensures r == has_chunk4(b@, pat@),
 { b.chunks(4).any(|c| c == pat) }
+/// `b.chunks_exact(4).any(|c| c == pat)`: the same aligned chunks without the short tail
+#[verifier::external_body]
+pub fn vx_chunks_exact_4_any_eq(b: &Vec<u8>, pat: &[u8; 4]) -> (r: bool)
+    ensures r == has_chunk4(b@, pat@),
+{ b.chunks_exact(4).any(|c| c == pat) }
+/// some 4-byte window of b (at any offset) equals pat
+pub open spec fn has_window4(b: Seq<u8>, pat: Seq<u8>) -> bool {
+    exists|k: int| #![trigger b.subrange(k, k + 4)] 0 <= k && k + 4 <= b.len() && b.subrange(k, k + 4) == pat
+}
+/// `b.windows(4).any(|c| c == pat)`: every offset, not only the aligned ones
+#[verifier::external_body]
+pub fn vx_windows_4_any_eq(b: &Vec<u8>, pat: &[u8; 4]) -> (r: bool)
+    ensures r == has_window4(b@, pat@),
+{ b.windows(4).any(|c| c == pat) }
 /// `Arc::make_mut(a).retain(p)`: keeps exactly the elements for which p holds, in order (copy-on-write is invisible)
 #[verifier::external_body]
 pub fn vx_arc_vec_retain<T: Clone, P: Fn(&T) -> bool>(a: &mut std::sync::Arc<Vec<T>>, p: P)
